@@ -59,7 +59,8 @@ F_DTEMPTY = 'C12-doctype-empty-intsubset-asymmetric'
 ALL_EXCLUSIONS = {F_INTSUB, F_NSRED, F_NSCONF, F_11NEL, F_11CTL, F_CDEND, F_CDSUR, F_COMM, F_PI, F_ATTRNAME, F_CDBAD, F_ICUSUPP, F_DTEMPTY}
 # Exclusions in force.  When a defect is fixed in /repo remove its id here (or, for a trial run, name it in the environment variable
 # VERIF_C12_EXCLUSIONS_OFF=id1,id2): the class is then generated again and judged by the unrestricted oracle.
-ACTIVE_EXCLUSIONS = set(ALL_EXCLUSIONS) - set(x for x in os.environ.get('VERIF_C12_EXCLUSIONS_OFF', '').split(',') if x)
+FIXED_IN_REPO = {'C12-nsfixup-redundant-decl', 'C12-pi-terminator-emitted', 'C12-comment-dashes-emitted', 'C12-cdata-split-invalid-char-emitted', 'C12-cdata-unrep-surrogate-halves', 'C12-doctype-empty-intsubset-asymmetric'}      # fix: commits landed; classes are generated again, witnesses moved to regress/
+ACTIVE_EXCLUSIONS = set(ALL_EXCLUSIONS) - FIXED_IN_REPO - set(x for x in os.environ.get('VERIF_C12_EXCLUSIONS_OFF', '').split(',') if x)
 def EX(fid): return fid in ACTIVE_EXCLUSIONS
 INTRINSIC = {'UTF-8', 'UTF-16', 'UTF-16LE', 'UTF-16BE', 'ISO-8859-1', 'US-ASCII', 'windows-1252', 'IBM1140'}
 
